@@ -1185,12 +1185,19 @@ class Interp:
                             keep = False
                     if keep:
                         k, v = self.ev(n.key), self.ev(n.value)
+                        if not isinstance(v, (Num, Lit)):
+                            # not a copy of contents: a table derived from them (substance -> (value, unit), ..)
+                            derived = derived if 'derived' in locals() else DictV()
+                            derived.pairs.append((k, v))
+                            continue
                         if isinstance(k, Subst):
                             self.check_same(self.as_unit(v, n, True), AMT(k.kind), n, 'store-contents',
                                             f"value kept for a {k.kind} is not in its storage unit")
                             kept.add(k.kind)
             finally:
                 self.env = saved
+            if 'derived' in locals():
+                return derived
             return Contents(Cont('filtered'), filt=kept)
         pairs = self.comp(n, lambda: (self.ev(n.key), self.ev(n.value)))
         d = DictV()
